@@ -16,7 +16,7 @@ def spec_eval(jobs, workers=4, procs=None, timeout=1800, allow_l1fail=False):
     for k, v in res.items():
         out[k] = {"required": sorted(v["required"]), "optional": sorted(v["optional"]),
                   "entry": {n: list(ps) for n, ps in (v["entry"].items() if isinstance(v["entry"], dict) else [])},
-                  "active": sorted(v["active"]), "accepts": v["accepts"]}
+                  "active": sorted(v["active"]), "accepts": v["accepts"], "groups": [sorted(g) for g in v.get("groups", [])]}
     return out, stats
 
 
